@@ -6,13 +6,16 @@ Theorems over `Model/Env.lean` (which mirrors `brush-core/src/env.rs`, `variable
 `interp.rs::apply_assignment`/`execute_command`, `declare.rs`, `export.rs`).  Quantifiers: every
 environment (any scope stack), every operation sequence of any length.
 
-As the code stands three statements are false at full strength; each keeps its `…_full : Prop`, a
+`assign_at_index` / `unset_index` check readonly since the repair in `/repo` (they did not before:
+`declare -r a=(1 2); a[0]=x` used to succeed), so `readonly_frozen` now covers the element writers and
+`readonly_element_write_refused` / `readonly_element_unset_refused` state the repaired behaviour.
+
+As the code stands two statements are false at full strength; each keeps its `…_full : Prop`, a
 proved `…_cex : ¬ …_full` and a `…_partial` under an explicit guard:
-* readonly: `assign_at_index` / `unset_index` have no readonly check (guard `OpOk`: no element writes);
 * temporary assignments: a prefix assignment re-uses a binding found in an *outer* command scope
   (guard `NoTempVisible`);
 * child environment: `iter_exported` skips non-exported bindings before the shadowing test, so a
-  shadowed exported binding leaks (guard: see `exported_env_exact_cex`; the exactness theorem is
+  shadowed exported binding leaks (see `exported_env_exact_cex`; the exactness theorem is
   proved for single-scope environments).
 -/
 namespace BrushVerif.C09
@@ -20,15 +23,16 @@ open BrushVerif.Wire BrushVerif.Env
 
 /-! ## readonly -/
 
-/-- operations covered by the readonly theorem: every shell-level writer except the two paths
-without a readonly check (element assignment, element unset), the raw `add`, and `declare -a` and `declare -A`
-(which re-shape the value of an existing scalar, as bash does). -/
+/-- operations covered by the readonly theorem: every shell-level writer, including element
+assignment and element unset.  Excluded are only things no shell construct does — the raw `add`
+(it overwrites whatever is there; its callers use it after a failed lookup) and `update_or_add*`
+with a policy other than `Anywhere` (every call site passes `Anywhere`) — and `declare -a` /
+`declare -A`, which re-shape the value of an existing scalar into `([0]=v)` exactly as bash does
+for a readonly scalar. -/
 def OpOk : Op → Prop
   | .add .. => False
   | .updateOrAdd _ _ _ pol _ => pol = .anywhere
-  | .updateOrAddElem .. => False
-  | .unsetIndex .. => False
-  | .assign _ idx _ _ => idx = none
+  | .updateOrAddElem _ _ _ pol _ => pol = .anywhere
   | .declare _ fl _ _ _ _ _ => fl.a = false ∧ fl.A = false
   | _ => True
 
@@ -52,23 +56,23 @@ private theorem step_keeps (e : Env) (op : Op) (hok : OpOk op) :
   | push k => rfl
   | pop k => simp only [step, stepR, Env.pop]; split <;> simp_all
   | unset n => exact unset_keeps e n
-  | unsetIndex n i => exact hok.elim
+  | unsetIndex n i => exact unsetIndex_keeps e n i
   | updateOrAdd n lit u pol k => simp only [OpOk] at hok; subst hok; exact updateOrAdd_keeps e n lit u k
-  | updateOrAddElem n i v pol k => exact hok.elim
+  | updateOrAddElem n i v pol k => simp only [OpOk] at hok; subst hok; exact updateOrAddElem_keeps e n i v k
   | add n v k => exact hok.elim
-  | assign n idx lit ap => simp only [OpOk] at hok; subst hok; exact applyPlain_keeps e n lit ap false
+  | assign n idx lit ap => exact applyPlainIdx_keeps e n idx lit ap false
   | pushTemp items => exact tempAssigns_keeps items (e.push .command) [] e.scopes rfl
   | declare n fl verb lit ai na inf => exact declare_keeps e n fl verb lit ai na inf hok.1 hok.2
   | exportName n un => exact exportName_keeps e n un
   | exportAssign n lit ap un => exact exportAssign_keeps e n lit ap un
   | assignDefault n v => exact assignDefault_keeps e n v
 
-/-- **readonly_frozen (partial).**  Take any environment whose stack is `pre ++ base` and any
+/-- **readonly_frozen.**  Take any environment whose stack is `pre ++ base` and any
 sequence of covered operations during which the stack never gets shallower than `base`.  Afterwards
 the stack is `pre' ++ base'` where `base'` has the same scopes (same kinds, same depth) and every
 binding that was readonly in `base` is still bound in the same scope, still readonly, with the same
-value: no construct changed, removed or replaced it. -/
-theorem readonly_frozen_partial : ∀ (ops : List Op) (pre base : List Scope),
+value: no construct changed, removed or replaced it — element assignment and element unset included. -/
+theorem readonly_frozen : ∀ (ops : List Op) (pre base : List Scope),
     (∀ op ∈ ops, OpOk op) → staysAbove base.length (pre.length + base.length) ops = true →
     ∃ pre' base', (run { scopes := pre ++ base } ops).scopes = pre' ++ base' ∧ KeepsL base base' := by
   intro ops
@@ -109,9 +113,9 @@ theorem readonly_frozen_partial : ∀ (ops : List Op) (pre base : List Scope),
         refine generic pre0 (by rw [hs]; exact KeepsL.refl _) ?_
         simpa using hd'
     | unset n => exact generic pre hs (by simpa [staysAbove] using hd)
-    | unsetIndex n i => exact hop.elim
+    | unsetIndex n i => exact generic pre hs (by simpa [staysAbove] using hd)
     | updateOrAdd n lit u pol k => exact generic pre hs (by simpa [staysAbove] using hd)
-    | updateOrAddElem n i v pol k => exact hop.elim
+    | updateOrAddElem n i v pol k => exact generic pre hs (by simpa [staysAbove] using hd)
     | add n v k => exact hop.elim
     | assign n idx lit ap => exact generic pre hs (by simpa [staysAbove] using hd)
     | declare n fl verb lit ai na inf => exact generic pre hs (by simpa [staysAbove] using hd)
@@ -120,43 +124,51 @@ theorem readonly_frozen_partial : ∀ (ops : List Op) (pre base : List Scope),
     | assignDefault n v => exact generic pre hs (by simpa [staysAbove] using hd)
 
 
-/-- non-vacuity: a readonly global below a function frame survives `x=…`, `for x`, `read x`,
+/-- non-vacuity: a readonly global below a function frame survives `x[0]=…`, `unset 'x[0]'`, `(( x[1]=… ))`, `x=…`, `for x`, `read x`,
 `unset x`, `local`-free `declare x=…`, `export x=…` and a temporary assignment, at depth 3 → 1 → 2 -/
 example :
     let ro : Var := { value := .str ['1'], readonly := true }
-    let ops : List Op := [.assign ['x'] none (.scalar ['2']) false, .updateOrAdd ['x'] (.scalar ['3']) .nop .anywhere .global,
+    let ops : List Op := [.assign ['x'] (some ['0']) (.scalar ['8']) false, .unsetIndex ['x'] ['0'],
+      .updateOrAddElem ['x'] ['1'] ['9'] .anywhere .global, .assign ['x'] none (.scalar ['2']) false, .updateOrAdd ['x'] (.scalar ['3']) .nop .anywhere .global,
       .unset ['x'], .pop .loc, .pop .command, .pushTemp [(['x'], .scalar ['4'])], .exportAssign ['x'] (.scalar ['5']) false false,
       .declare ['x'] {} .declare (some (.scalar ['6'])) false false false, .assignDefault ['x'] ['7']]
     (∀ op ∈ ops, OpOk op) ∧ staysAbove 1 3 ops = true ∧
       (run { scopes := [(.loc, []), (.command, [])] ++ [(.global, [(['x'], ro)])] } ops).scopes.getLast? =
         some (.global, [(['x'], ro)]) := by
-  refine ⟨by intro op h; simp at h; rcases h with h | h | h | h | h | h | h | h | h <;> subst h <;> simp [OpOk], by decide, by decide⟩
+  refine ⟨by intro op h; simp at h; rcases h with h | h | h | h | h | h | h | h | h | h | h | h <;> subst h <;> simp [OpOk], by decide, by decide⟩
 
-/-- the statement at full strength, one step at a time: no operation other than popping the
-variable's own scope changes the value or the readonly attribute of a readonly binding -/
-def readonly_frozen_full : Prop :=
-  ∀ (e : Env) (op : Op) (n : Str) (k : Kind) (v : Var), e.get n = some (k, v) → v.readonly = true →
-    (∀ k', op ≠ .pop k') → (∀ items, op ≠ .pushTemp items) →
-    ∃ v', (step e op).get n = some (k, v') ∧ v'.value = v.value ∧ v'.readonly = true
+/-- **readonly_element_write_refused.**  `n[i]=v` / `n[i]+=v` on a name that resolves to a readonly
+variable (in whatever scope) is refused and leaves the whole environment exactly as it was
+(`declare -r a=(1 2); a[0]=x` — this used to succeed before `assign_at_index` got its check). -/
+theorem readonly_element_write_refused (e : Env) (n i s : Str) (ap : Bool) (k : Kind) (v : Var)
+    (hg : e.get n = some (k, v)) (hr : v.readonly = true) :
+    stepR e (.assign n (some i) (.scalar s) ap) = (e, false) := by
+  have hmod := modPol_refused n (fun w =>
+      if (w.assignAtIndex i s ap).2 = true then ((w.assignAtIndex i s ap).1, true) else ((w.assignAtIndex i s ap).1, false))
+    k v (by simp [Var.assignAtIndex, hr]) e.scopes 0 hg
+  simp [stepR, Env.applyAssignment, hg, Env.modify, hmod]
 
-/-- `declare -r a=(1 2); a[0]=x` — `assign_at_index` has no readonly check -/
-theorem readonly_frozen_cex : ¬ readonly_frozen_full := by
-  intro h
-  let v0 : Var := { value := .indexed [(0, ['1']), (1, ['2'])], readonly := true }
-  let e0 : Env := { scopes := [(.global, [(['a'], v0)])] }
-  obtain ⟨v', h1, h2, _⟩ := h e0 (.assign ['a'] (some ['0']) (.scalar ['x']) false) ['a'] .global v0
-    (by decide) rfl (by intro k' hk; cases hk) (by intro it hk; cases hk)
-  have hc : (step e0 (.assign ['a'] (some ['0']) (.scalar ['x']) false)).get ['a'] =
-      some (.global, { value := .indexed [(0, ['x']), (1, ['2'])], readonly := true }) := by decide
-  rw [hc] at h1
-  cases h1
-  exact absurd h2 (by decide)
+/-- the same for the other element writers (`(( n[i]=… ))`, `printf -v 'n[i]'`, `${n[i]:=…}`, `mapfile -O`) -/
+theorem readonly_element_update_refused (e : Env) (n i s : Str) (k k' : Kind) (v : Var)
+    (hg : e.get n = some (k, v)) (hr : v.readonly = true) :
+    stepR e (.updateOrAddElem n i s .anywhere k') = (e, false) := by
+  have hmod := modPol_refused n (fun w => w.assignAtIndex i s false) k v (by simp [Var.assignAtIndex, hr]) e.scopes 0 hg
+  simp [stepR, Env.updateOrAddElem, Env.modify, hmod]
 
-/-- `declare -r a=(1 2); unset 'a[0]'` — `unset_index` has no readonly check either -/
-theorem readonly_unset_index_cex :
+/-- **readonly_element_unset_refused.**  `unset 'n[i]'` on a readonly variable is refused and changes
+nothing (`declare -r a=(1 2); unset 'a[0]'`). -/
+theorem readonly_element_unset_refused (e : Env) (n i : Str) (k : Kind) (v : Var)
+    (hg : e.get n = some (k, v)) (hr : v.readonly = true) :
+    stepR e (.unsetIndex n i) = (e, false) := by
+  have hmod := modPol_refused n (fun w => w.unsetIndex i) k v (by simp [Var.unsetIndex, hr]) e.scopes 0 hg
+  simp [stepR, Env.unsetIndex, Env.modify, hmod]
+
+example :
     let v0 : Var := { value := .indexed [(0, ['1']), (1, ['2'])], readonly := true }
-    ((step { scopes := [(.global, [(['a'], v0)])] } (.unsetIndex ['a'] ['0'])).get ['a']).map (·.2.value) =
-      some (.indexed [(1, ['2'])]) := by decide
+    let e0 : Env := { scopes := [(.loc, []), (.global, [(['a'], v0)])] }
+    e0.get ['a'] = some (.global, v0) ∧ v0.readonly = true ∧
+      stepR e0 (.assign ['a'] (some ['0']) (.scalar ['x']) false) = (e0, false) ∧
+      stepR e0 (.unsetIndex ['a'] ['1']) = (e0, false) := by decide
 
 /-! ## dynamic scoping -/
 
